@@ -1,5 +1,5 @@
-import AiocoapModel.Basic.Bytes
-/-! Line protocol for C14 (not built yet). -/
+import AiocoapModel.Driver.MsgLayer
+/-! C14 is decided on the shared message-layer model. -/
 namespace Aiocoap
-def handleC14 (_args : List String) : String := "out-of-model"
+def handleC14 (args : List String) : String := MsgLayer.handleMsgLayer args
 end Aiocoap
